@@ -66,7 +66,7 @@ def norm(t):
 
 def generate(rng, tier):
     while True:
-        spec = F.gen_fa(rng, max_states=4, pool=rng.choice(["str", "str", "int"]))
+        spec = F.gen_fa(rng, max_states=(5 if tier == "thorough" and rng.random() < 0.25 else 4), pool=rng.choice(["str", "str", "int"]))
         spec["symvals"] = F.PLAIN_SYMS[:len(spec["symvals"])]
         yield {"fa": spec}
 
